@@ -7,6 +7,10 @@ import struct
 
 from harness.fw import Check, Driver, hexs
 
+PINS = [("androguard/core/dex/__init__.py", "readuleb128"), ("androguard/core/dex/__init__.py", "readuleb128p1"),
+        ("androguard/core/dex/__init__.py", "readsleb128"), ("androguard/core/dex/__init__.py", "writeuleb128"),
+        ("androguard/core/dex/__init__.py", "writesleb128"), ("androguard/core/dex/__init__.py", "get_byte")]
+
 
 def _real():
     from androguard.core import dex
@@ -116,6 +120,8 @@ def gen_values(ck: Check):
 
 def run(ck: Check):
     dex, cm = _real()
+    if ck.pins_changed(PINS):          # a modelled function changed: run the thorough sizes even in the quick tier
+        ck.quick = False
     ck.prove(exes=["drv_C03"])
     drv = Driver("drv_C03")
     ck.rule = ("byte sequences: all 1- and 2-byte, boundary-byte products of length 3-4, seeded random 1-6 bytes "
